@@ -31,7 +31,7 @@ def cases(tier, seed):
     rng = random.Random('C05|%d' % seed)
     T = tier == 'thorough'
     cs = []
-    for i in range(48 if not T else 640):
+    for i in range(160 if not T else 2000):
         cs.append({'gen': 'walk', 'steps': rng.choice((30, 60, 120, 200)) if T else rng.choice((30, 60, 100)), 'dtype': ['f64', 'f64', 'c128', 'f32'][i % 4], 'views': i % 3 == 2, 'w': i})
     names = walk.OP_NAMES
     for a in names:
